@@ -381,6 +381,12 @@ class WS:
         return o, toks, sorted(hidden_names), dirs
 
     def build(self):
+        if getattr(self, "session", None) is not None:
+            # a LONG-LIVED client: one BuildSystem object (harness vc10, op `session`) does every build of this history
+            self.session.stdin.write(("session %s 1\n" % os.path.abspath(self.root)).encode())
+            self.session.stdin.flush()
+            line = self.session.stdout.readline().decode().strip()
+            return (0 if line.startswith("ok=1 ") else 1), line
         cmd = [self.exe, "buildsystem", "build", "--serial", "-C", self.root, "--db", "build.db", "-f", "build.llbuild"]
         p = subprocess.run(cmd, stdout=subprocess.PIPE, stderr=subprocess.STDOUT)
         return p.returncode, p.stdout.decode("utf-8", "replace")
@@ -610,7 +616,7 @@ def do_build(ws, out, edits, history, ident):
                 "node_path": "relative" if ws.clean is None else ("absolute-clean" if ws.clean == idx else "absolute-dotted"),
                 "edit_kinds": kinds, "edit_flavours": flavours, "stat_record_preserved": bool(preserved)}
         inp = dict(ident, build=b, patterns=[p.decode("latin-1") for p in ws.patterns], fs_mode=ws.fs_mode,
-                   clean=ws.clean, node=node, edits_so_far=list(history), script={"init": out["script"]["init"], "builds": list(out["script"]["builds"])},
+                   clean=ws.clean, session=getattr(ws, "session", None) is not None, node=node, edits_so_far=list(history), script={"init": out["script"]["init"], "builds": list(out["script"]["builds"])},
                    entry_set_changed_with_equal_stat_record=preserved, links_dropped_by_string_prefix_guard=guard_links)
         if rc != 0 or ran[idx] != changed:
             label = "%s (%s%s, file-system %s)" % (node, "structure" if structure else "tree", ", filtered" if filtered else "", ws.fs_mode)
@@ -884,9 +890,13 @@ OP_KIND = {"mkfile": "add_file", "mkdir": "add_dir", "mklink": "add_link", "appe
 
 def run_script(args):
     """a scripted history (corpus/C12/*.json, or the `script` of a replay file): exact primitive operations"""
-    (name, spec, exe, scratch) = args
+    (name, spec, exe, scratch) = args[:4]
     patterns = [p.encode("latin-1") for p in spec["patterns"]]
     ws = WS(os.path.join(scratch, "c-" + name), patterns, exe, spec.get("fs_mode", "default"), spec.get("clean"))
+    sess = None
+    if spec.get("session") and len(args) > 4 and args[4]:
+        sess = subprocess.Popen([args[4], "c10build"], stdin=subprocess.PIPE, stdout=subprocess.PIPE, stderr=subprocess.DEVNULL)
+        ws.session = sess
     for o in spec["script"]["init"]:
         ws.apply_op(o)
     out = new_out("corpus:" + name, ws)
@@ -899,6 +909,13 @@ def run_script(args):
                  for o in ops]
         history.append(edits)
         do_build(ws, out, edits, history, {"history": "corpus:" + name, "stream": "corpus"})
+    if sess is not None:
+        try:
+            sess.stdin.close()
+            sess.wait(timeout=20)
+        except Exception:
+            sess.kill()
+        ws.session = None
     drop_workspace(ws, out)
     return out
 
@@ -923,7 +940,7 @@ class Check(PropertyCheck):
         "C12_tree_changed_not_up_to_date_under_stat_discipline", "C12_struct_changed_not_up_to_date_under_stat_discipline",
         "C12_relisting_view_is_the_file_system", "C12_filtered_as_coded_needs_stat_discipline"]]
     extractors = ["x_dirtree", "x_codec"]
-    harnesses = []
+    harnesses = [("vc10", "plain")]     # its `session` op: one BuildSystem object for all builds of a scripted history
     level = "proof"
     assumptions = [
         "theorems are about pre-hash terms: llvm::hash_combine / hash_combine_range (64-bit) are NOT injective; equal terms <=> equal observations, distinct terms collide with probability ~2^-64",
@@ -962,7 +979,7 @@ class Check(PropertyCheck):
             inp = r.get("failure", r).get("input", {})
             if "script" in inp:
                 specs.append(("replay", {"patterns": inp["patterns"], "fs_mode": inp.get("fs_mode", "default"),
-                                         "clean": inp.get("clean"), "script": inp["script"]}))
+                                         "clean": inp.get("clean"), "script": inp["script"], "session": bool(inp.get("session"))}))
         return specs
 
     def correspond(self, ctx, res):
@@ -980,7 +997,7 @@ class Check(PropertyCheck):
         specs = self.corpus(ctx)
         # processes, not threads: the python observer is CPU-bound (a thread pool is ~10x slower under the GIL)
         with ProcessPoolExecutor(max_workers=16) as ex:
-            fc = [ex.submit(run_script, (name, spec, exe, scratch)) for name, spec in specs]
+            fc = [ex.submit(run_script, (name, spec, exe, scratch, ctx.exe.get(("vc10", "plain")))) for name, spec in specs]
             fs = [ex.submit(run_history_s, j) for j in jobs_s]
             ft = [ex.submit(run_history_t, j) for j in jobs_t]
             fh = [ex.submit(run_history, j) for j in jobs]
